@@ -82,3 +82,68 @@ pub fn run_nsig(args: &[&str]) -> String {
         .collect();
     ids.join(",")
 }
+
+/// `wobs <path>`: format independent listing of a waveform: timescale, time table, and for every variable in
+/// walk order `<depth>:<kind>:<namehex>:<width>` followed by its changes as `<time>:<K>:<value>`.
+pub fn run_wobs(args: &[&str]) -> String {
+    let mut wave = match simple::read(args[0]) {
+        Ok(w) => w,
+        Err(_) => return "ERR".to_string(),
+    };
+    let ts = wave.hierarchy().timescale().map(|t| format!("{}e{}", t.factor, t.unit.to_exponent().map(|e| e.to_string()).unwrap_or("?".to_string()))).unwrap_or("~".to_string());
+    let n = wave.hierarchy().num_unique_signals();
+    let ids: Vec<SignalRef> = (0..n)
+        .map(|i| SignalRef::from_index(i).unwrap())
+        .filter(|r| wave.hierarchy().get_signal_tpe(*r).is_some())
+        .collect();
+    wave.load_signals(&ids);
+    let tt: Vec<u64> = wave.time_table().to_vec();
+    let mut out = vec![format!("ts={} tt={}", ts, time_table_obs(&tt))];
+    fn walk(wave: &simple::Waveform, items: Vec<(bool, usize)>, depth: usize, tt: &[u64], out: &mut Vec<String>) {
+        let h = wave.hierarchy();
+        for (is_scope, idx) in items {
+            if is_scope {
+                let s = h.iter_scopes().nth(idx).unwrap();
+                out.push(format!("{}:S:{}:-", depth, hex_of_bytes(s.name(h).as_bytes())));
+                let children: Vec<(bool, usize)> = s
+                    .items(h)
+                    .map(|i| match i {
+                        HierarchyItem::Scope(c) => (true, h.iter_scopes().position(|x| std::ptr::eq(x, c)).unwrap()),
+                        HierarchyItem::Var(c) => (false, h.iter_vars().position(|x| std::ptr::eq(x, c)).unwrap()),
+                    })
+                    .collect();
+                walk(wave, children, depth + 1, tt, out);
+            } else {
+                let v = h.iter_vars().nth(idx).unwrap();
+                let enc = match v.signal_encoding() {
+                    SignalEncoding::String => "s".to_string(),
+                    SignalEncoding::Real => "r".to_string(),
+                    SignalEncoding::BitVector(n) => format!("b{}", n.get()),
+                };
+                let sig = wave.get_signal(v.signal_ref()).unwrap();
+                let ch: Vec<String> = sig
+                    .iter_changes()
+                    .map(|(i, val)| {
+                        let t = tt[i as usize];
+                        match val {
+                            SignalValue::Real(r) => format!("{:x}:R:{:016x}", t, r.to_bits()),
+                            SignalValue::String(s) => format!("{:x}:S:{}", t, hex_of_bytes(s.as_bytes())),
+                            other => format!("{:x}:B:{}", t, other.to_bit_string().unwrap()),
+                        }
+                    })
+                    .collect();
+                out.push(format!("{}:V:{}:{}={}", depth, hex_of_bytes(v.name(h).as_bytes()), enc, if ch.is_empty() { "-".to_string() } else { ch.join(",") }));
+            }
+        }
+    }
+    let h = wave.hierarchy();
+    let top: Vec<(bool, usize)> = h
+        .items()
+        .map(|i| match i {
+            HierarchyItem::Scope(c) => (true, h.iter_scopes().position(|x| std::ptr::eq(x, c)).unwrap()),
+            HierarchyItem::Var(c) => (false, h.iter_vars().position(|x| std::ptr::eq(x, c)).unwrap()),
+        })
+        .collect();
+    walk(&wave, top, 0, &tt, &mut out);
+    out.join(" ")
+}
